@@ -36,6 +36,7 @@ type Clause struct {
 	Text   string
 	S      Spec
 	Canary bool
+	Witness bool
 	Line   int
 }
 
@@ -153,7 +154,7 @@ var labelRe = regexp.MustCompile(`^\[([A-Za-z0-9_.:\-]+)\]\s*`)
 var clauseKW = map[string]bool{"props": true, "requires": true, "ensures": true, "assigns": true, "canary": true,
 	"loop": true, "decreases": true, "nooverflow": true, "assumed": true, "inline": true, "let": true, "panics_ok": true,
 	"params": true, "frame_only": true, "nonblocking": true, "use": true, "ghost": true, "terminates": true, "bytes": true, "split": true, "uses": true, "after": true, "calls": true,
-	"maxalloc": true, "allocates": true, "generic": true, "callarg": true}
+	"maxalloc": true, "allocates": true, "generic": true, "callarg": true, "witness": true}
 
 // FnName: the SSA name of the function the contract is about (the variant suffix removed).
 func (c *Contract) FnName() string {
@@ -496,17 +497,31 @@ func (c *Contract) addClause(kw, text string, line int) error {
 			return err
 		}
 		c.Splits = append(c.Splits, cl)
-	case "requires", "ensures", "canary":
+	case "requires", "ensures", "canary", "witness":
 		canary := false
+		witness := false
 		if kw == "canary" {
 			canary = true
 			text = strings.TrimSpace(strings.TrimPrefix(text, "ensures"))
+		}
+		if kw == "witness" {
+			// witness ensures [label] E: some execution of the function must end in a state satisfying E.
+			// Checked like a canary for `not E` (which must be refuted at one return point), but a witness
+			// that cannot be found is a VIOLATION: the behaviour the property promises no longer exists.
+			canary, witness = true, true
+			text = strings.TrimSpace(strings.TrimPrefix(text, "ensures"))
+			if m := labelRe.FindString(text); m != "" {
+				text = m + "!(" + text[len(m):] + ")"
+			} else {
+				text = "!(" + text + ")"
+			}
 		}
 		cl, err := c.mkClause(text, line)
 		if err != nil {
 			return err
 		}
 		cl.Canary = canary
+		cl.Witness = witness
 		if kw == "requires" {
 			c.Requires = append(c.Requires, cl)
 		} else {
